@@ -13,14 +13,14 @@ def strToBytes (s : C34.Str) : Bytes := s.map (fun c => UInt8.ofNat c)
 def bytesToStr (b : Bytes) : C34.Str := b.map (fun c => c.toNat)
 
 /-- `parse_set_cookie_header(h)`: every non-empty pair list is a cookie — first pair = name/value, the rest = `CookieAttrs`.
-    (A cookie name without "=value" has value `None` in Python; it is represented with the empty value here.) -/
+    A cookie name without "=value" has value `none` (Python `None`). -/
 def cookiesOfHeader (dateOf : Bytes → Option Int) (h : C34.Str) : List RawCookie :=
   (C34.parseSetCookie h).filterMap (fun pairs =>
     match pairs with
     | [] => none
     | (n, v) :: attrs =>
       let as := attrs.map (fun p => (strToBytes p.1, p.2.map strToBytes))
-      some { name := strToBytes n, value := (v.map strToBytes).getD [], attrs := as,
+      some { name := strToBytes n, value := v.map strToBytes, attrs := as,
              dateTs := match attrGet kExpires as with
                | some (some e) => dateOf e
                | _ => none })
@@ -33,6 +33,10 @@ inductive HdrEvent where
 def HdrEvent.toRaw (dateOf : Bytes → Option Int) : HdrEvent → RawEvent
   | .resp now host port hs => .resp now host port (hs.flatMap (cookiesOfHeader dateOf))
   | .req f h p pa => .req f h p pa
+
+/-- `format_cookie_header(cookie_list)` = `_format_pairs` with quoting of special values (C34's transcription) -/
+def cookieHeaderText (d : Dict) : C34.Str :=
+  C34.joinSep (d.map (fun p => C34.fmtPair [] (bytesToStr p.1) (p.2.map bytesToStr)))
 
 def runHdr (dateOf : Bytes → Option Int) (jar : Jar) (evs : List HdrEvent) : Jar :=
   runRaw jar (evs.map (HdrEvent.toRaw dateOf))
